@@ -47,7 +47,7 @@ type c15group struct {
 	prefixes []string // for Filter / FilterKey
 	remotes  []string // for ListRemoteRefs
 	ops      []c15op
-	prelude  []c15op // run on the fresh store (and the model) before every trace: a non-initial start state
+	prelude  []c15op     // run on the fresh store (and the model) before every trace: a non-initial start state
 	backend  *c15backend // nil = SQL
 }
 
